@@ -409,10 +409,11 @@ def rule_r10(prog, res):
         for fn, t in sites:
             # an ordering comparison of dates, one operand coming from a forward clamp and the other from a backward one
             ok = False
-            for _, c in flow.comparisons(fn):
-                if c["op"] not in ("Lt", "Le", "Gt", "Ge"):
-                    continue
-                sa, sb = flow.shape(fn, c["a"], depth=6), flow.shape(fn, c["b"], depth=6)
+            pairs = [(c["a"], c["b"]) for _, c in flow.comparisons(fn) if c["op"] in ("Lt", "Le", "Gt", "Ge")]
+            # `a.cmp(&b)`, `a.partial_cmp(&b)`, `min(a, b)`, `max(a, b)` order their operands as well
+            pairs += [(u["args"][0], u["args"][1]) for _, u in fn.calls() if len(u["args"]) == 2 and re.search(r"(Ord::cmp|PartialOrd::partial_cmp|cmp::min|cmp::max|Ord::min|Ord::max)$", flow.call_name(u) or "")]
+            for a, b in pairs:
+                sa, sb = flow.shape(fn, a, depth=6), flow.shape(fn, b, depth=6)
                 for x, y in ((sa, sb), (sb, sa)):
                     if "valid_ymd_after" in x and "valid_ymd_before" not in x and "valid_ymd_before" in y and "valid_ymd_after" not in y:
                         ok = True
@@ -470,4 +471,5 @@ def rule_r11(prog, res):
                 ok = ka is not None and kb is not None and (ka, kb) in adds
                 r11.check(ok, {"fn": f.id.split("::")[-1], "or_of": [a[-60:], b[-60:]], "both_present_overlaid_by": "Schedule::addition"}, "C01.R11:%s:%s" % (f.id.split("::")[-1], b[-80:]),
                           "%s merges two optional schedules of a day with `%s` and no sibling branch overlays them when both exist: the second one (a spill from yesterday, or this rule's own contribution) is dropped whenever the first exists - e.g. `Su 10:00-12:00; Sa 22:00-02:00` is closed on Sunday 01:00" % (f.id, cal.get("name")), lib.where_of(f, t))
-    r11.check(n >= 2, {"optional_schedule_merges": n}, "C01.R11:FLOOR", "FLOOR: %d merges of optional day schedules found (expected the rule fold and today/yesterday)" % n)
+    n_add = sum(1 for fn in roots for fid in prog.with_closures(fn.id) for _, t in prog.fns[fid].calls() if flow.call_name(t).endswith("Schedule::addition"))
+    r11.check(n_add >= 2, {"first_wins_merges": n, "overlays": n_add}, "C01.R11:FLOOR", "FLOOR: %d overlays (Schedule::addition) of day schedules found in the day evaluation (expected the rule fold and today/yesterday)" % n_add)
